@@ -92,7 +92,7 @@ def gen_cases(rng, tier, keys, triples):
 def run(tier, replay=None):
     res = Result(PID, tier, LEVEL)
     res.cov["rule"] = ("proof obligations: Properties_C12.v + per-run theorem table_ok over the case table T-rad regenerates from radial_gen.cpp "
-                       "(Laurent normal form of every coefficient; base cases; recurrence identities R_j / R_i between table entries). Correspondence: "
+                       "(Laurent normal form of every coefficient; base cases; recurrence identities R_j / R_i between table entries). Correspondence (tight): the numeric model of the closed-form path (base integrals, seeds, the translated case evaluated statement by statement), extracted together with the table translated on this run, reproduces every closed-form value of the library to 1e-10 x sum|terms|. Correspondence (truth): "
                        "every closed-form key x power n in {0,1,2} x {generic, both sides of a*b=0.002, x=y, small aA, full ranges, far+diffuse with high powers of r} and triples that "
                        "generated classes request without closed form, through RadialIntegral::type2(triples,...) with single primitives, against a "
                        "self-validating composite Gauss-Legendre evaluation of the DEFINITION (1e-6 rel + 1e-9 abs); deviations are re-evaluated with the "
@@ -144,11 +144,35 @@ def run(tier, replay=None):
     tmp = scratch_dir()
     try:
         cf = os.path.join(tmp, "cases.txt"); open(cf, "w").write("\n".join(cs) + "\n")
-        exe = compile_driver("drv_radial.cpp", "rel")
+        exe = compile_driver("drv_radial.cpp", "rel", extra=["-I%s/src/external/Faddeeva" % root])
         of = os.path.join(tmp, "out.txt")
         rc, out = sh([exe, cf, of], check=False, timeout=7200)
         if rc != 0:
             raise RuntimeError("drv_radial failed: " + out[-2000:])
+        # ---- numeric model of the closed-form path (Radial/RadialNum.v) on the table translated on THIS run: extracted together
+        #      with gen/RadialCases.v and run against the library's values of the same cases
+        radnum_bad = []; radnum_note = None
+        if rc1 == 0:
+            coq_make(["Radial/RadialNum.vo"])
+            open(os.path.join(tmp, "ExtractRad.v"), "w").write(
+                "From Coq Require Extraction.\nFrom Coq Require Import ExtrOcamlBasic.\n"
+                "From LV Require Import Base.NumOps Radial.RadialSym Radial.RadialNum gen.RadialCases.\n"
+                "Extraction Language OCaml.\nExtraction \"radnum.ml\" mkNumOps closed_value cases.\n")
+            rcx, ox = sh(["coqc", "-Q", COQ, "LV", "ExtractRad.v"], cwd=tmp, check=False, timeout=600)
+            shutil.copy(os.path.join(OCAML, "drv_radnum.ml"), tmp)
+            rcy, oy = sh(["ocamlfind", "ocamlopt", "-w", "-a", "radnum.mli", "radnum.ml", "drv_radnum.ml", "-o", "drv_radnum"], cwd=tmp, check=False, timeout=600) if rcx == 0 else (1, ox)
+            if rcy != 0:
+                raise RuntimeError("extraction of the numeric radial model failed: " + (ox + oy)[-1500:])
+            rcz, oz = sh([os.path.join(tmp, "drv_radnum"), of, "1e-10"], check=False, timeout=3600)
+            sz = [l for l in oz.splitlines() if l.startswith("SUMMARY")]
+            if rcz != 0 or not sz:
+                raise RuntimeError("drv_radnum failed: " + oz[-1500:])
+            kvz = dict(x.split("=") for x in sz[0].split()[1:])
+            res.cov["closed_form_values_reproduced_by_the_extracted_model"] = int(kvz["compared"]) - int(kvz["mismatches"])
+            res.cov["closed_form_values_compared_with_the_extracted_model"] = int(kvz["compared"])
+            radnum_bad = [l for l in oz.splitlines() if l.startswith("MISMATCH")]
+        else:
+            radnum_note = "gen/RadialCases.v does not compile; the numeric model was not run"
         rc, out = sh([os.path.join(OCAML, "drv_radial"), of], check=False, timeout=7200)
         if rc != 0:
             raise RuntimeError("model driver failed: " + out[-2000:])
@@ -210,6 +234,14 @@ def run(tier, replay=None):
         for cid, l, why in viol[:3]:
             res.violation("radial-" + cid, {"theorem_or_correspondence": "T = defining integral (1e-6 rel + 1e-9 abs)", "input": by[cid], "observed": l, "attribution": why, "n_violations": len(viol),
                                             "oracle": {"grade": "G3", "what": "composite 20-point Gauss-Legendre of the definition, 64 vs 128 panels agree to 1e-10"}})
+        seen_rn = set()
+        for l in radnum_bad:
+            cid = l.split()[1]
+            if cid in seen_rn or len(seen_rn) >= 2:
+                continue
+            seen_rn.add(cid)
+            res.violation("radnum-" + cid, {"theorem_or_correspondence": "Radial/RadialNum.closed_value (extracted with the case table translated on this run) = RadialIntegral::type2 on the closed-form path (1e-10 x sum|terms|)",
+                                            "input": by.get(cid), "observed": [x for x in radnum_bad if x.split()[1] == cid][:4], "n": len(radnum_bad)})
         if not obligation_ok and not res.violations:
             res.violation("obligation", {"theorem_or_correspondence": "gen/Obl_C12.v table_ok_now / table_wf_now / cases_sound", "bad_keys": bad_keys, "unparsed_statements_in_keys": bad_parse,
                                          "detail": res.cov.get("obligation_error")}, no_input=True)
